@@ -324,6 +324,22 @@ func c08(c *Ctx) {
 				}
 			}
 		})
+		if !okEmpty {
+			// the same without an early return: every write into the histogram stands where it is known to be non-empty
+			nW, guarded := 0, true
+			eachInstr(lh, func(in ssa.Instruction) {
+				mu, ok := in.(*ssa.MapUpdate)
+				if !ok {
+					return
+				}
+				nW++
+				isRes := func(v ssa.Value) bool { return ptrOrigin(v) == ptrOrigin(mu.Map) }
+				if !knownNonEmpty(factsAt(mu.Block()), isRes) {
+					guarded = false
+				}
+			})
+			okEmpty = nW >= 1 && guarded
+		}
 		r.Check("latencyHistogram:empty-stays-empty", okEmpty, lh.Pos(), "an empty (limit 0) or nil (no tag) histogram is returned unchanged")
 		// emptyHistogram: limit 0 -> empty before parsing
 		okZero := false
